@@ -21,7 +21,7 @@ MECHANISMS = ["jaxley.modules.base:Module.init_states", "jaxley.channels.hh:HH.i
               "jaxley.channels.pospischil:CaL.init_state"]
 MECHANISMS_REQUIRED = ["jaxley.modules.base:Module.init_states"]
 REQUIRED = {"quick": {"fixed_point": 300, "r2_inf": 300, "rows_written": 60},
-            "thorough": {"fixed_point": 21466, "r2_inf": 7155, "rows_written": 13182}}
+            "thorough": {"fixed_point": 23097, "r2_inf": 7699, "rows_written": 14523}}
 
 
 def cases(seed, tier):
